@@ -1,9 +1,10 @@
+import BalmProofs.GenericInv
 import BalmProofs.JudgeExact
 import BalmProofs.WeakSpec
 import BalmProofs.ContractSpec
 import BalmProofs.JudgeSpec
 import Balm
-import BalmProofs.Props.C04
+import BalmProofs.PlainInv
 import BalmProofs.AttrTest
 import BalmProofs.Bfs
 import BalmProofs.Drivers
